@@ -1,12 +1,9 @@
-import Aqua.Exec.Instr
+import Aqua.Exec.Call
 /-
-The instruction interpreter `exec` (fuelled) for the modelled fragment, and `runInstr`, the
-execution stage of a run.
+The instruction interpreter `exec` (fuelled) for the modelled fragment.
 -/
 namespace Aqua.Exec
 open Aqua Aqua.Json Aqua.Air Aqua.Data Aqua.Trace
-
-def panicM {α} (site : String) : M α := fun c => (.panic site, c)
 
 /-- `check_error_object` -/
 def checkErrorObject (v : JVal) : Res ErrorObjectErr Unit :=
@@ -28,43 +25,50 @@ def checkErrorObject (v : JVal) : Res ErrorObjectErr Unit :=
       | _ => .error (.scalarFieldIsWrongType v "error_code" "integer")
   | _ => .error (.scalarMustBeObject v)
 
-def liftErrObj {α} (r : Res ErrorObjectErr α) : M α := liftER (r.mapErr fun e => .catchable (.invalidErrorObjectError e))
+def errObjER {α} (r : Res ErrorObjectErr α) : ER α := r.mapErr fun e => .catchable (.invalidErrorObjectError e)
 
 /-- `fail_with_error_object` -/
 def failWithErrorObject (error : JVal) (t : Option Tetraplet) (p : Provenance) : M Unit := do
   modifyCtx fun c => { c with lastError := { error := ⟨error, t, p, none⟩, canBeSet := false }, subgraphComplete := false }
   throwE (.catchable (.userError error))
 
-def execFail (arg : FailArg) : M Unit := do
-  let c ← getCtx
+/-- the error object a `fail` throws, with its tetraplet and provenance -/
+def failOperand (c : Ctx) (arg : FailArg) : ER (JVal × Option Tetraplet × Provenance) :=
   match arg with
-  | .scalar name =>
-    let (v, ts, p) ← liftER (resolveValue c (.scalar name))
-    liftErrObj (checkErrorObject v)
-    failWithErrorObject v ts.head? p
-  | .scalarWL name l =>
-    let (v, ts, p) ← liftER (resolveValue c (.scalarWL name l))
-    liftErrObj (checkErrorObject v)
-    failWithErrorObject v ts.head? p
+  | .scalar name => do
+    let (v, ts, p) ← resolveValue c (.scalar name)
+    errObjER (checkErrorObject v)
+    pure (v, ts.head?, p)
+  | .scalarWL name l => do
+    let (v, ts, p) ← resolveValue c (.scalarWL name l)
+    errObjER (checkErrorObject v)
+    pure (v, ts.head?, p)
   | .literal code msg =>
-    let obj := errorFromRawFields code msg (FailArg.literal code msg).render (some c.initPeerId)
-    failWithErrorObject obj (some (Tetraplet.literal c.initPeerId)) .literal
-  | .canonWL .. => throwE (.unmodelled "fail with canon stream")
-  | .lastError =>
+    .ok (errorFromRawFields code msg (FailArg.literal code msg).render (some c.initPeerId), some (Tetraplet.literal c.initPeerId), .literal)
+  | .canonWL .. => unmodelled "fail with canon stream"
+  | .lastError => do
     let ie := c.lastError.error
-    liftErrObj (checkErrorObject ie.error)
-    failWithErrorObject ie.error ie.tetraplet ie.provenance
-  | .error =>
+    errObjER (checkErrorObject ie.error)
+    pure (ie.error, ie.tetraplet, ie.provenance)
+  | .error => do
     let ie := c.error.error
-    liftErrObj (checkErrorObject ie.error)
-    let r ← tryM (failWithErrorObject ie.error ie.tetraplet ie.provenance)
-    modifyCtx fun c => { c with error := { c.error with canBeSet := false } }
-    match ie.origCatchable with
-    | some orig => throwE (.catchable orig)
-    | none => match r with
-      | .ok () => pure ()
-      | .error e => throwE e
-      | .panic s => panicM s
+    errObjER (checkErrorObject ie.error)
+    pure (ie.error, ie.tetraplet, ie.provenance)
+
+/-- `fail :error:`: rethrows the original catchable error when there is one -/
+def execFailError (v : JVal) (t : Option Tetraplet) (p : Provenance) : M Unit :=
+  readCtx (fun c => c.error.error.origCatchable) >>= fun orig =>
+  tryM (failWithErrorObject v t p) >>= fun r =>
+  modifyCtx (fun c => { c with error := { c.error with canBeSet := false } }) >>= fun _ =>
+  match orig with
+  | some o => throwE (.catchable o)
+  | none => reraise r
+
+def execFail (arg : FailArg) : M Unit :=
+  readER (fun c => failOperand c arg) >>= fun r =>
+  match arg with
+  | .error => execFailError r.1 r.2.1 r.2.2
+  | _ => failWithErrorObject r.1 r.2.1 r.2.2
 
 /-- `apply_to_arg` for the scalar-result `ap` -/
 def applyToArg (c : Ctx) (arg : Value) : ER ValueAggregate :=
@@ -93,18 +97,23 @@ def applyToArg (c : Ctx) (arg : Value) : ER ValueAggregate :=
       pure (itemIntoResolvedResult x)
   | .canon _ | .canonWL .. | .canonMap _ | .canonMapWL .. => unmodelled "ap with canon stream argument"
 
-def execAp (arg : Value) (out : CallOutput) : M Unit := do
+/-- update of the scalar store only -/
+def withScalars (c : Ctx) (g : Scalars → ER Scalars) : ER Ctx :=
+  (g c.scalars).bind fun sc => .ok { c with scalars := sc }
+
+/-- update of the scalar store only, with a returned value -/
+def withScalarsRet {α} (c : Ctx) (g : Scalars → ER (α × Scalars)) : ER (α × Ctx) :=
+  (g c.scalars).bind fun (a, sc) => .ok (a, { c with scalars := sc })
+
+def setScalar (name : String) (v : ValueAggregate) : M Unit :=
+  modifyER fun c => withScalars c (·.setScalarValue name v)
+
+def execAp (arg : Value) (out : CallOutput) : M Unit :=
   match out with
-  | .scalar name =>
-    let r ← joinable (do
-      let c ← getCtx
-      liftER (applyToArg c arg))
-    match r with
+  | .scalar name => do
+    match ← joinable (readER fun c => applyToArg c arg) with
     | none => pure ()
-    | some v =>
-      let c ← getCtx
-      let sc ← liftER (c.scalars.setScalarValue name v)
-      setCtx { c with scalars := sc }
+    | some v => setScalar name v
   | _ => throwE (.unmodelled "ap into a stream")
 
 /-- `are_matchable_eq` -/
@@ -137,6 +146,51 @@ def createScalarIterable (c : Ctx) (iterable : Value) : ER (Option IterableValue
   | .emptyArray => .ok none
   | _ => unmodelled "fold over a canon stream"
 
+/-- xor: state changes when the left branch failed catchably, before the right branch runs -/
+def xorEnterRight (e : CatchableErr) (c : Ctx) : Ctx :=
+  { c with subgraphComplete := true,
+           lastError := { c.lastError with canBeSet := true },
+           error := { error := { c.error.error with origCatchable := some e }, canBeSet := true } }
+
+/-- xor: `clear_error_object_if_needed`, then re-enable error setting if the right branch succeeded -/
+def xorLeaveRight (rightOk : Bool) (c : Ctx) : Ctx :=
+  let c := if c.error.canBeSet then { c with error := { c.error with error := noError } } else c
+  if rightOk then { c with error := { c.error with canBeSet := true } } else c
+
+def foldEnter (iterator : String) (fs : FoldState) : Ctx → ER Ctx := fun c =>
+  withScalars c fun s => (s.meetFoldStart).setIterableValue iterator fs
+
+def foldLeave (iterator : String) : Ctx → ER Ctx := fun c =>
+  withScalars c fun s => (s.removeIterableValue iterator).meetFoldEnd
+
+/-- `next`: advance the iterable; `none` = exhausted -/
+def nextAdvance (iterator : String) : Ctx → ER (Option FoldState × Ctx) := fun c =>
+  withScalarsRet c fun s => do
+    let fs ← s.getIterable iterator
+    match fs.iterableType with
+    | .stream _ => unmodelled "next in a stream fold"
+    | .scalar =>
+      let (moved, it') := fs.iterable.next
+      if !moved then pure (none, s)
+      else
+        let fs' := { fs with iterable := it' }
+        pure (some fs', (s.setIterableState iterator fs').meetNextBefore)
+
+def nextAfter : Ctx → ER Ctx := fun c => withScalars c (·.meetNextAfter)
+
+def nextBack (iterator : String) : Ctx → ER Ctx := fun c =>
+  withScalars c fun s => do
+    let fs ← s.getIterable iterator
+    let (_, it) := fs.iterable.prev
+    pure (s.setIterableState iterator { fs with iterable := it })
+
+def newLeave (name : String) : Ctx → ER (Bool × Ctx) := fun c =>
+  withScalarsRet c fun s => let (sc, ok) := s.meetNewEndScalar name; .ok (ok, sc)
+
+def isNext : Instr → Bool
+  | .next _ => true
+  | _ => false
+
 mutual
 /-- `Instruction::execute` with the `execute!` wrapper (errors of everything except `call` update
 `%last_error%` / `:error:` on the way up) -/
@@ -145,10 +199,7 @@ def exec (env : Env) : Nat → Instr → M Unit
   | fuel + 1, i =>
     match i with
     | .call p s f args out => execCall env i p s f args out
-    | _ => fun c =>
-      match execInner env fuel i c with
-      | (.error e, c') => (.error e, c'.setErrorsOf e i)
-      | r => r
+    | _ => onError (execInner env fuel i) (fun e c => c.setErrorsOf e i)
 
 def execInner (env : Env) (fuel : Nat) (i : Instr) : M Unit :=
   match i with
@@ -158,27 +209,18 @@ def execInner (env : Env) (fuel : Nat) (i : Instr) : M Unit :=
   | .seq l r => do
     modifyCtx fun c => { c with subgraphComplete := true }
     exec env fuel l
-    let c ← getCtx
-    if c.subgraphComplete then exec env fuel r else pure ()
+    let complete ← readCtx (·.subgraphComplete)
+    if complete then exec env fuel r else pure ()
   | .xor l r => do
     modifyCtx fun c => { c with subgraphComplete := true }
     let res ← tryM (exec env fuel l)
     match res with
-    | .error (.catchable e) =>
-      modifyCtx fun c => { c with
-        subgraphComplete := true,
-        lastError := { c.lastError with canBeSet := true },
-        error := { error := { c.error.error with origCatchable := some e }, canBeSet := true } }
+    | .error (.catchable e) => do
+      modifyCtx (xorEnterRight e)
       let right ← tryM (exec env fuel r)
-      -- clear_error_object_if_needed
-      modifyCtx fun c => if c.error.canBeSet then { c with error := { c.error with error := noError } } else c
-      match right with
-      | .ok () => modifyCtx fun c => { c with error := { c.error with canBeSet := true } }
-      | .error e => throwE e
-      | .panic s => panicM s
-    | .ok () => pure ()
-    | .error e => throwE e
-    | .panic s => panicM s
+      modifyCtx (xorLeaveRight right.isOk)
+      reraise right
+    | r => reraise r
   | .par l r => do
     liftTH' i (fun th => th.meetParStart)
     let left ← execSubgraph env fuel i l .left
@@ -188,95 +230,70 @@ def execInner (env : Env) (fuel : Nat) (i : Instr) : M Unit :=
     | none, _ | _, none => modifyCtx fun c => { c with lastError := { c.lastError with canBeSet := true } }
     | some _, some e => throwE e
   | .match_ a b body => do
-    let eq ← joinable (do let c ← getCtx; liftER (areMatchableEq c a b))
-    match eq with
+    match ← joinable (readER fun c => areMatchableEq c a b) with
     | none => pure ()
     | some true => exec env fuel body
     | some false => throwE (.catchable .matchValuesNotEqual)
   | .mismatch a b body => do
-    let eq ← joinable (do let c ← getCtx; liftER (areMatchableEq c a b))
-    match eq with
+    match ← joinable (readER fun c => areMatchableEq c a b) with
     | none => pure ()
     | some false => exec env fuel body
     | some true => throwE (.catchable .mismatchValuesEqual)
   | .ap arg out => execAp arg out
   | .fail arg => execFail arg
   | .foldScalar iterable iterator body last => do
-    let it ← joinable (do let c ← getCtx; liftER (createScalarIterable c iterable))
-    match it with
+    match ← joinable (readER fun c => createScalarIterable c iterable) with
     | none | some none => pure ()
     | some (some itv) =>
-      let fs : FoldState := { iterable := itv, iterableType := .scalar, instrHead := body, lastInstrHead := last }
-      modifyCtx fun c => { c with scalars := c.scalars.meetFoldStart }
-      let c ← getCtx
-      let sc ← liftER (c.scalars.setIterableValue iterator fs)
-      setCtx { c with scalars := sc }
+      modifyER (foldEnter iterator { iterable := itv, iterableType := .scalar, instrHead := body, lastInstrHead := last })
       let res ← tryM (exec env fuel body)
-      modifyCtx fun c => { c with scalars := c.scalars.removeIterableValue iterator }
-      let c ← getCtx
-      let sc ← liftER c.scalars.meetFoldEnd
-      setCtx { c with scalars := sc }
-      match res with
-      | .ok () => pure ()
-      | .error e => throwE e
-      | .panic s => panicM s
+      modifyER (foldLeave iterator)
+      reraise res
   | .next iterator => do
-    let c ← getCtx
-    let fs ← liftER (c.scalars.getIterable iterator)
-    match fs.iterableType with
-    | .stream _ => throwE (.unmodelled "next in a stream fold")
-    | .scalar =>
-      let (moved, it') := fs.iterable.next
-      if !moved then
-        match fs.lastInstrHead with
-        | some lastInstr =>
-          modifyCtx fun c => { c with subgraphComplete := true }
-          exec env fuel lastInstr
-        | none => pure ()
-      else
-        setCtx { c with scalars := (c.scalars.setIterableState iterator { fs with iterable := it' }).meetNextBefore }
-        let res ← tryM (exec env fuel fs.instrHead)
-        let c ← getCtx
-        let sc ← liftER c.scalars.meetNextAfter
-        setCtx { c with scalars := sc }
-        match res with
-        | .error e => throwE e
-        | .panic s => panicM s
-        | .ok () =>
-          let c ← getCtx
-          let fs ← liftER (c.scalars.getIterable iterator)
-          let (_, it'') := fs.iterable.prev
-          setCtx { c with scalars := c.scalars.setIterableState iterator { fs with iterable := it'' } }
+    match ← stateER (nextAdvance iterator) with
+    | none =>
+      let fs ← readER fun c => c.scalars.getIterable iterator
+      match fs.lastInstrHead with
+      | some lastInstr =>
+        modifyCtx fun c => { c with subgraphComplete := true }
+        exec env fuel lastInstr
+      | none => pure ()
+    | some fs =>
+      let res ← tryM (exec env fuel fs.instrHead)
+      modifyER nextAfter
+      match res with
+      | .ok () => modifyER (nextBack iterator)
+      | r => reraise r
   | .new arg body _ _ =>
     match arg with
     | .scalar name => do
       modifyCtx fun c => { c with scalars := c.scalars.meetNewStartScalar name }
       let res ← tryM (exec env fuel body)
-      let c ← getCtx
-      let (sc, ok) := c.scalars.meetNewEndScalar name
-      setCtx { c with scalars := sc }
+      let ok ← stateER (newLeave name)
       match res with
-      | .error e => throwE e
-      | .panic s => panicM s
-      | .ok () => if ok then pure () else throwE (.uncatchable (.scalarsStateCorrupted name c.scalars.nonIterable.currentDepth))
+      | .ok () =>
+        if ok then pure ()
+        else do
+          let d ← readCtx fun c => c.scalars.nonIterable.currentDepth
+          throwE (.uncatchable (.scalarsStateCorrupted name d))
+      | r => reraise r
     | _ => throwE (.unmodelled "new on a stream / map / canon stream")
   | _ => throwE (.unmodelled ("instruction " ++ i.render))
 
 /-- `execute_subgraph` of par.rs: returns (error of a failed subgraph, observed completeness) -/
 def execSubgraph (env : Env) (fuel : Nat) (par sub : Instr) (t : SubgraphType) : M (Option ExecErr × Bool) := do
-  let isNext := match sub with | .next _ => true | _ => false
-  modifyCtx fun c => { c with subgraphComplete := !isNext }
+  modifyCtx fun c => { c with subgraphComplete := !(isNext sub) }
   let res ← tryM (exec env fuel sub)
   match res with
   | .ok () =>
     liftTH' par (fun th => th.meetParSubgraphEnd t)
-    let c ← getCtx
-    pure (none, c.subgraphComplete)
+    let complete ← readCtx (·.subgraphComplete)
+    pure (none, complete)
   | .error (.catchable e) =>
     makeSubgraphIncomplete
     liftTH' par (fun th => th.meetParSubgraphEnd t)
-    let c ← getCtx
-    pure (some (.catchable e), c.subgraphComplete)
+    let complete ← readCtx (·.subgraphComplete)
+    pure (some (.catchable e), complete)
   | .error e => do makeSubgraphIncomplete; throwE e
   | .panic s => panicM s
 end
